@@ -35,7 +35,10 @@
 EXTENDS Integers, Sequences, FiniteSets, TLC
 
 CONSTANTS PEERS, CIDS, MaxOps,
-          MaxOut     \* how many daemon outages a behaviour may contain
+          MaxOut,    \* how many daemon outages a behaviour may contain
+          HandoffOrdered \* TRUE: a peer's tracker receives the applied entries in commit order (crdt put/delete
+                     \* hooks are synchronous).  FALSE: as raft's LogOp.ApplyTo does it - one goroutine per applied
+                     \* entry (rpcClient.GoContext), so two entries may reach the tracker in either order
 
 VARIABLES
     log,      \* the committed sequence of pinset operations
@@ -130,10 +133,13 @@ StateSyncAll ==
     /\ UNCHANGED <<applied, todo, ipfs, up, dok, failed, outs, left>>
 
 \* consensus applies the next entry on p and hands it to the tracker
+InsertAt(sq, i, e) == SubSeq(sq, 1, i) \o <<e>> \o SubSeq(sq, i + 1, Len(sq))
 Apply(p) ==
     /\ p \in up /\ applied[p] < Len(log)
     /\ applied' = [applied EXCEPT ![p] = @ + 1]
-    /\ todo' = [todo EXCEPT ![p] = Append(@, log[applied[p] + 1])]
+    /\ IF HandoffOrdered
+         THEN todo' = [todo EXCEPT ![p] = Append(@, log[applied[p] + 1])]
+         ELSE \E i \in 0..Len(todo[p]) : todo' = [todo EXCEPT ![p] = InsertAt(@, i, log[applied[p] + 1])]
     /\ act' = [name |-> "Apply", p |-> p]
     /\ UNCHANGED <<log, ipfs, up, dok, failed, outs, left>>
 
